@@ -60,6 +60,8 @@ def run(ctx):
     none_outside_ranges(ctx, ctx.facts.getters())
     collect_orbits_shape(ctx, ctx.facts.getters())
     builders(ctx, ctx.facts.getters())
+    predicates(ctx, ctx.facts.getters())
+    collect_orbits_walk(ctx, ctx.facts.getters())
     ctx.clauses.append("storage layout of the operation table: size * (dim + 1) cells, idx a bijection, grow() consistent (T4, expressions evaluated)")
     storage_layout(ctx, "T4-storage-layout", ctx.facts.getters())
     table_slots(ctx)
@@ -283,6 +285,202 @@ def builders(ctx, g):
                 if vr is None or unov_deep(strip(vr)) != w:
                     bad = "v(i, d) of the copy is not ds.v(i, i + 1, d): %s" % (show(vr, 1)[:60] if vr else None)
         ctx.ob("T9-builders", b.name, "copy", "ok" if not bad else "violation", "size, dim, op(i, d)%s of the source" % (", v(i, i + 1, d)" if want_v else "") if not bad else bad)
+
+
+def predicates(ctx, g):
+    """the graph predicates as decision procedures (path conditions / returned expressions evaluated over all outcomes of their opaque tests):
+    is_connected - false exactly when the traversal starts a SECOND component (a seed item, i = None, at a chamber > 1);
+    is_loopless - every (i, d) has op(i, d) != Some(d); is_oriented = is_loopless && is_weakly_oriented;
+    orientations_match(i, d, ori) - true iff op(i, d) is undefined, a loop, d is unsigned, or the two signs differ;
+    partial_orientation - an unsigned chamber reached from d gets the opposite sign of d (PLUS for a seed);
+    DSet::r - counts the steps of d under (i, j) from 0, one per step, and answers when the walk is back at d;
+    Traversal::next - the new chamber goes to the FRONT of the queues of the indices 0 and 1 and to the back of the others"""
+    ctx.clauses.append("graph predicates as decision tables: is_connected, is_loopless, is_oriented, orientations_match, partial_orientation, default r, traversal queue discipline (T4)")
+    T = "dsets::DSet::"
+    # is_connected
+    b = ctx.body(T + "is_connected")
+    bad = None
+    item = None
+    for bi, t in b.calls("Option::<T>::is_none"):
+        a = strip(norm(b.origin(t["args"][0]), g))
+        if a[0] == "field" and a[2] == "0":
+            item = strip(a[1])
+    if item is None:
+        bad = "no test `i.is_none()` on the traversal item"
+    else:
+        isn = [("call", t["callee"]["def"], (strip(norm(b.origin(t["args"][0]), g)),)) for bi, t in b.calls("Option::<T>::is_none")][0]
+        dch = ("field", item, "1")
+        for none_, dv, want in ((1, 1, {True}), (1, 2, {False, True}), (0, 5, {True}), (1, 3, {False, True})):
+            got = bool_results(b, g, lambda y, none_=none_, dv=dv: none_ if (y[0] == "call" and y[1].endswith("is_none")) else dv if y == dch else None)
+            # `true` is always a possible answer after the loop; `false` must be possible exactly for a seed item at a chamber > 1
+            if (False in got) != (False in want):
+                bad = bad or "for a traversal item with i %s at chamber %d is_connected %s answer false" % ("= None" if none_ else "= Some(..)", dv, "can" if False in got else "cannot")
+    ctx.ob("T4-predicates", b.name, "false iff a seed item at a chamber > 1", "ok" if not bad else "violation", "4 combinations of (i is None, chamber)" if not bad else bad)
+    # is_loopless
+    b = ctx.body(T + "is_loopless")
+    ctx.scan(ctx.facts.with_closures(b.name))
+    inner = [cb for cb in ctx.facts.with_closures(b.name) if "{closure#0}::{closure#0}" in cb.name]
+    bad = None
+    if len(inner) != 1:
+        bad = "not all(|i| all(|d| ..))"
+    else:
+        r = strip(norm(inner[0].local_origin(0), g))
+        okn = (is_call(r, "PartialEq::ne") or (r[0] == "binop" and r[1] == "Ne"))
+        args = [strip(x) for x in (r[2] if r[0] == "call" else r[2:4])] if okn else []
+        okn = okn and any(is_call(x, "DSet::op") for x in args) and any(x[0] == "agg" and x[1].endswith("Option::Some") for x in args)
+        if okn:
+            o = [x for x in args if is_call(x, "DSet::op")][0]
+            sm = [x for x in args if x[0] == "agg"][0]
+            okn = strip(o[2][2]) == strip(sm[2][0])
+        if not okn:
+            bad = "the test is not op(i, d) != Some(d): %s" % show(r, 1)[:60]
+    ctx.ob("T4-predicates", b.name, "op(i, d) != Some(d) everywhere", "ok" if not bad else "violation", "no chamber is its own i-neighbour" if not bad else bad)
+    # is_oriented
+    b = ctx.body(T + "is_oriented")
+    got = {}
+    for lv, wv in ((0, 0), (0, 1), (1, 0), (1, 1)):
+        got[(lv, wv)] = bool_results(b, g, lambda y, lv=lv, wv=wv: lv if (y[0] == "call" and y[1].endswith("is_loopless")) else wv if (y[0] == "call" and y[1].endswith("is_weakly_oriented")) else None)
+    okk = all((True in v) == (k == (1, 1)) and (False in v or k == (1, 1)) for k, v in got.items())
+    ctx.ob("T4-predicates", b.name, "is_loopless && is_weakly_oriented", "ok" if okk else "violation",
+           "true exactly when both hold" if okk else "is_oriented is not the conjunction of is_loopless and is_weakly_oriented: %s" % got)
+    # orientations_match
+    b = ctx.body(T + "orientations_match")
+    me, i_, d_, ori = (("param", k, b.debug.get(k, "")) for k in (1, 2, 3, 4))
+    opc = ("call", "dsets::DSet::op", (me, i_, d_))
+    di = ("field", ("variant", opc, "Some"), "0")
+    bad = None
+    for defined, loop, zero, differ in [(0, 0, 0, 0)] + [(1, l, z, df) for l in (0, 1) for z in (0, 1) for df in (0, 1)]:
+        def val(y, defined=defined, loop=loop, zero=zero, differ=differ):
+            if y == ("discr", opc):
+                return 1 if defined else 0
+            if y == d_:
+                return 2
+            if y == di:
+                return 2 if loop else 3
+            if y[0] == "call" and y[1].endswith("PartialEq::eq") and any(strip(z)[0] == "agg" and "ZERO" in strip(z)[1] for z in y[2]):
+                return zero
+            if y[0] == "call" and y[1].endswith("PartialEq::ne") and all(as_index(strip(z)) for z in y[2]):
+                return differ
+            if y[0] == "call" and y[1].endswith("PartialEq::eq") and all(as_index(strip(z)) for z in y[2]):
+                return 1 - differ
+            return None
+        got = bool_results(b, g, val)
+        want = (not defined) or bool(loop) or bool(zero) or bool(differ)
+        if got != {want}:
+            bad = bad or "op(i, d) %s, %s, d %s, signs %s: orientations_match can answer %s, expected %s" % (
+                "defined" if defined else "undefined", "a loop" if loop else "not a loop", "unsigned" if zero else "signed", "differ" if differ else "equal", sorted(got, key=str), want)
+    ctx.ob("T4-predicates", b.name, "undefined || loop || unsigned || signs differ", "ok" if not bad else "violation", "9 combinations" if not bad else bad)
+    # partial_orientation
+    b = ctx.body(T + "partial_orientation")
+    bad = None
+    stores = []
+    for bi, si, s in b.assigns():
+        if [e["k"] for e in s["place"]["p"]] == ["deref"]:
+            tgt = strip(norm(b.local_origin(s["place"]["l"]), g))
+            if is_call(tgt, "IndexMut::index_mut"):
+                stores.append((bi, strip(tgt[2][1]), s["rv"]))
+    if len(stores) != 1:
+        bad = "%d sign stores" % len(stores)
+    else:
+        sb_, key, rv = stores[0]
+        item = strip(key[1]) if key[0] == "field" and key[2] == "2" else None
+        if item is None:
+            bad = "the sign is not stored at the chamber reached (third component of the traversal item)"
+        else:
+            vloc = rv["op"]["place"]["l"] if rv["k"] == "use" and rv["op"]["k"] in ("copy", "move") else None
+            defs = [(dbb, strip(norm(d, g))) for dbb, d in b.all_defs_origins(vloc)] if vloc is not None else []
+            tab = {}
+            for dbb, d in defs:
+                nm = d[1].split("::")[-1] if d[0] == "agg" else "?"
+                fa = [atom_norm(x, g) for x in b.facts_at(dbb)]
+                par = [x for x in fa if x[0] == "rel" and any(as_index(strip(z)) and strip(as_index(strip(z))[1]) == ("field", item, "1") for z in x[2:4] if isinstance(z, tuple))]
+                pol = {(x[1], strip(z)[1].split("::")[-1]) for x in par for z in x[2:4] if isinstance(z, tuple) and strip(z)[0] == "agg"}
+                tab[nm] = pol
+            unsigned = any(x[0] == "rel" and x[1] == "Eq" and any(strip(z)[0] == "agg" and "ZERO" in strip(z)[1] for z in x[2:4] if isinstance(z, tuple)) and
+                           any(as_index(strip(z)) and strip(as_index(strip(z))[1]) == key for z in x[2:4] if isinstance(z, tuple)) for x in (atom_norm(y, g) for y in b.facts_at(sb_)))
+            if tab != {"MINUS": {("Eq", "PLUS")}, "PLUS": {("Ne", "PLUS")}}:
+                bad = "the new sign is not MINUS exactly when the chamber it was reached from is PLUS (else PLUS): %s" % tab
+            elif not unsigned:
+                bad = "a sign is assigned to a chamber that may already have one (not under sgn[di] == ZERO)"
+    ctx.ob("T4-predicates", b.name, "sgn[di] = opposite of sgn[d], once", "ok" if not bad else "violation", "unsigned chambers get MINUS from a PLUS parent, PLUS otherwise" if not bad else bad)
+    # chamber-indexed work tables and the closing test of the 2-orbit walks
+    nt = chamber_tables(ctx, "T4-chamber-table", ctx.body(T + "partial_orientation"), g, fill=None) + chamber_tables(ctx, "T4-chamber-table", ctx.body(T + "orbit_reps_2d"), g, fill=0) + \
+        chamber_tables(ctx, "T4-chamber-table", ctx.body("dsyms::collect_orbits"), g, fill=0)
+    ctx.floor("chamber-indexed work tables (partial_orientation, orbit_reps_2d, collect_orbits)", nt, 4)
+    for fn in (T + "orbit_reps_2d", "dsyms::collect_orbits"):
+        wb = ctx.body(fn)
+        okx = False
+        for hh, bl in natural_loops(wb):
+            for e_, ats in loop_exit_atoms(wb, hh, bl, g):
+                for a in ats:
+                    a = atom_norm(a, g)
+                    if a[0] == "rel" and a[1] == "Eq":
+                        l_, r_ = strip(a[2]), strip(a[3])
+                        walk = [x for x in (l_, r_) if x[0] == "local" and not wb.is_stable_local(x[1])]
+                        seed = [x for x in (l_, r_) if x[0] == "field" and x[2] == "0"]
+                        if walk and seed and loop_range_of_payload(wb, seed[0], g):
+                            okx = True
+        ctx.ob("T4-predicates", wb.name, "walk closed at e == d", "ok" if okx else "violation",
+               "the walk around a 2-orbit ends exactly when it is back at the chamber it started from" if okx else "the 2-orbit walk is not left exactly when e == d (the start chamber of the orbit)")
+    # default r
+    b = ctx.body(T + "r")
+    bad = None
+    somes = [(bi, strip(norm(b.rv_origin(s["rv"]), g))) for bi, si, s in b.assigns() if s["place"]["l"] == 0 and not s["place"]["p"] and strip(norm(b.rv_origin(s["rv"]), g))[1].endswith("Option::Some")]
+    if len(somes) != 1 or strip(somes[0][1][2][0])[0] != "local":
+        bad = "the answer is not Some(counter)"
+    else:
+        cnt = strip(somes[0][1][2][0])
+        defs = [strip(norm(d, g)) for dbb, d in b.all_defs_origins(cnt[1])]
+        ini = [d for d in defs if eval_int(d) is not None]
+        inc = [d for d in defs if unov_deep(d) == ("binop", "Add", cnt, ("int", 1))]
+        fa = [atom_norm(x, g) for x in b.facts_at(somes[0][0])]
+        d_ = ("param", 4, b.debug.get(4, ""))
+        back = any(x[0] == "rel" and x[1] == "Eq" and d_ in (strip(x[2]), strip(x[3])) and any(strip(z)[0] == "local" for z in (x[2], x[3])) for x in fa)
+        if len(defs) != 2 or [eval_int(x) for x in ini] != [0] or len(inc) != 1:
+            bad = "the orbit length is not counted from 0 by steps of 1: %s" % [show(d, 1)[:30] for d in defs]
+        elif not back:
+            bad = "the count is not answered exactly when the walk is back at d"
+    ctx.ob("T4-predicates", b.name, "r = number of (i, j)-steps until back at d", "ok" if not bad else "violation", "counter 0, +1 per step, answered at e == d" if not bad else bad)
+    # traversal queue discipline
+    nb = ctx.body("<dsets::Traversal<'a, T, I> as std::iter::Iterator>::next")
+    pf = {bi for bi, t in nb.calls("VecDeque::<T, A>::push_front")}
+    pb_ = {bi for bi, t in nb.calls("VecDeque::<T, A>::push_back")}
+    bad = None
+    if len(pf) != 1 or len(pb_) != 1:
+        bad = "not one push_front and one push_back"
+    else:
+        ks = [strip(z) for bi in pf for x in (atom_norm(y, g) for y in nb.facts_at(bi)) if x[0] == "rel" and any(isinstance(w, tuple) and strip(w)[0] == "int" and strip(w)[1] in (1, 2) for w in x[2:4])
+              for z in x[2:4] if isinstance(z, tuple) and strip(z)[0] != "int"]
+        for kv, want_front in ((0, True), (1, True), (2, False), (3, False)):
+            r = reachable_sites(nb, g, pf | pb_, lambda y, kv=kv: kv if y in ks else None)
+            if (bool(r & pf), bool(r & pb_)) != (want_front, not want_front):
+                bad = bad or "for index %d the new chamber goes to the %s of the queue (indices 0 and 1: front, the others: back)" % (kv, "front" if r & pf else "back")
+    ctx.ob("T4-predicates", nb.name, "push_front iff k < 2", "ok" if not bad else "violation", "indices 0, 1 -> front; 2, 3 -> back" if not bad else bad)
+
+
+def collect_orbits_walk(ctx, g):
+    """collect_orbits: for every adjacent pair (i, i + 1) and EVERY chamber 1..=size() not yet seen, the walk alternates op(i, .) and op(i + 1, .)"""
+    b = ctx.body("dsyms::collect_orbits")
+    ops = [[strip(norm(b.origin(x), g)) for x in t["args"]] for bi, t in b.calls("op_unchecked")]
+    bad = None
+    if len(ops) != 2:
+        bad = "%d op_unchecked steps in the walk" % len(ops)
+    else:
+        idx = [unov_deep(a[1]) for a in ops]
+        base = [x for x in idx if x[0] == "field"]
+        nxt = [x for x in idx if x[0] == "binop"]
+        if len(base) != 1 or len(nxt) != 1 or nxt[0] != ("binop", "Add", base[0], ("int", 1)):
+            bad = "the walk does not alternate op(i, .) and op(i + 1, .): indices %s" % [show(x, 1)[:30] for x in idx]
+        else:
+            ri = loop_range_of_payload(b, base[0], g)
+            seeds = [strip(norm(d, g)) for l, nm in b.debug.items() for dbb, d in b.all_defs_origins(l) if not b.is_stable_local(l) and b.local_ty(l) == "usize"]
+            rd = [loop_range_of_payload(b, x, g) for x in seeds if x[0] == "field" and x[2] == "0"]
+            rd = [r for r in rd if r and eval_int(r[0]) == 1]
+            if not (ri and eval_int(ri[0]) == 0 and not ri[2] and (is_call(strip(ri[1]), "::dim") or strip(ri[1])[0] == "field")):
+                bad = "the index pairs are not (i, i + 1) for i in 0..dim()"
+            elif not (rd and all(r[2] and (is_call(strip(r[1]), "::size") or (strip(r[1])[0] == "field" and strip(r[1])[2] == "size")) for r in rd)):
+                bad = "the orbits are not started from every chamber 1..=size(): %s" % [(show(r[0], 1), show(r[1], 1)[:20], r[2]) for r in rd]
+    ctx.ob("T4-collect-orbits", b.name, "walk", "ok" if not bad else "violation", "op(i, .), op(i + 1, .) alternately, from every unseen chamber 1..=size(), i in 0..dim()" if not bad else bad)
 
 
 def collect_orbits_shape(ctx, g):
